@@ -232,6 +232,21 @@ def run(model, rep, tier):
     rep.check("self.message._parse_special_rr_header( section_number, count, i, name, rdclass, rdtype )".replace("( ", "(").replace(" )", ")") in t and "for i in range(count)" in t,
               "R-14.4", gs.qualname, where(gs, gs.node), "the reader passes (section, count, position) of every TSIG/OPT to the special-header check",
               "the reader no longer passes (section, count, position) to the special-header check", stmt="position-args")
+    # the key is looked up, built and validated under the owner name as it is on the wire (absolute), never under the name relativized to the message origin
+    uses = []
+    for c in ast.walk(gs.node):
+        if isinstance(c, ast.Call):
+            fn = src(c.func)
+            if fn == "self.keyring.get" and c.args:
+                uses.append(("keyring.get", c.args[0], c))
+            elif fn == "dns.tsig.Key" and c.args:
+                uses.append(("dns.tsig.Key", c.args[0], c))
+            elif fn == "self.keyring" and len(c.args) >= 2:
+                uses.append(("keyring(message, name)", c.args[1], c))
+    rep.floor("R-14.4-keyname-uses", len(uses), 3)
+    for (what, a, c) in uses:
+        rep.check(src(a) == "absolute_name", "R-14.4", gs.qualname, where(gs, c), f"{what} uses the absolute owner name", f"{what} is given `{src(a)}` instead of the absolute owner name read from the wire: with a message origin "
+                  "(zone transfers) a key at or below the origin is looked up under its relativized name and genuine signed messages are rejected with UnknownTSIGKey", stmt="keyname " + what)
     vc = [c for c in ast.walk(gs.node) if isinstance(c, ast.Call) and src(c.func) == "dns.tsig.validate"]
     want_args = ["self.parser.wire", "key", "absolute_name", "rd", "int(time.time())", "self.message.request_mac", "rr_start", "self.message.tsig_ctx", "self.multi"]
     rep.check(len(vc) == 1 and [" ".join(src(a).split()) for a in vc[0].args] == want_args, "R-14.4", gs.qualname, where(gs, gs.node),
@@ -259,6 +274,8 @@ def run(model, rep, tier):
 
 
 WITNESSES = [
+    {"id": "c14-key-lookup-by-relative-name", "rule": "R-14.4", "file": "dns/message.py", "expect": "fires",
+     "old": "                        key = self.keyring.get(absolute_name)", "new": "                        key = self.keyring.get(name)"},
     {"id": "c14-no-request-mac-length", "rule": "R-14.1", "file": "dns/tsig.py", "expect": "fires",
      "old": "            ctx.update(struct.pack(\"!H\", len(request_mac)))\n            ctx.update(request_mac)\n    assert", "new": "            ctx.update(request_mac)\n    assert"},
     {"id": "c14-digest-current-id", "rule": "R-14.1", "file": "dns/tsig.py", "expect": "fires",
